@@ -23,7 +23,7 @@ pub open spec fn cons(ev: &Evaluator<'_>, c: Cx) -> bool {
     &&& forall|u: EntityUID| #![trigger es.sp_attrs(u)] es.sp_attrs(u) is Some ==> cx_attrs(c, u) == Some(es.sp_attrs(u)->Some_0)
     &&& forall|u: EntityUID| #![trigger es.sp_tags(u)] es.sp_tags(u) is Some ==> cx_tags(c, u) == Some(es.sp_tags(u)->Some_0)
 }
-/// result of evaluating under a completion: a value, an error, or not specified here (extension calls, set and record literals)
+/// result of evaluating under a completion: a value, an error, or not specified here (results of extension calls, record literals)
 pub enum R { V(ValueKind), E, U }
 pub open spec fn kbool(b: bool) -> ValueKind { ValueKind::Lit(Literal::Bool(b)) }
 pub open spec fn kuid(u: EntityUID) -> ValueKind { ValueKind::Lit(Literal::EntityUID(Arc::new(u))) }
@@ -40,6 +40,10 @@ pub open spec fn rsem(c: Cx, r: Residual) -> R
         Residual::Partial { kind, .. } => ksem(c, kind),
     }
 }
+/// some item evaluates to an error / every item to a value / the items' values
+pub open spec fn v_any_err(c: Cx, es: Arc<Vec<Residual>>) -> bool decreases es { exists|i: int| 0 <= i < es@.len() && rsem(c, #[trigger] es@[i]) is E }
+pub open spec fn v_all_val(c: Cx, es: Arc<Vec<Residual>>) -> bool decreases es { forall|i: int| 0 <= i < es@.len() ==> rsem(c, #[trigger] es@[i]) is V }
+pub open spec fn v_vals(c: Cx, es: Arc<Vec<Residual>>) -> Seq<ValueKind> decreases es { Seq::new(es@.len(), |i: int| if 0 <= i < es@.len() { rsem(c, es@[i])->V_0 } else { arbitrary() }) }
 pub open spec fn bsem(c: Cx, op: BinaryOp, k1: ValueKind, k2: ValueKind) -> R {
     match op {
         BinaryOp::Eq | BinaryOp::Less | BinaryOp::LessEq => opt_r(evaluator::sp_relation(op, k1, k2)),
@@ -119,9 +123,10 @@ pub open spec fn ksem(c: Cx, k: ResidualKind) -> R
             R::V(_) => R::E,
             x => x,
         },
-        // extension calls, set and record literals: not pinned down here
-        ResidualKind::ExtensionFunctionApp { .. } => R::U,
-        ResidualKind::Set(_) => R::U,
+        // every argument / element is evaluated: an error in any of them is an error of the whole.  The result of an extension
+        // call itself, and record literals, are not pinned down here
+        ResidualKind::ExtensionFunctionApp { args, .. } => if v_any_err(c, args) { R::E } else { R::U },
+        ResidualKind::Set(es) => if v_any_err(c, es) { R::E } else if v_all_val(c, es) { R::V(mk_set(v_vals(c, es))) } else { R::U },
         ResidualKind::Record(_) => R::U,
     }
 }
@@ -165,8 +170,8 @@ pub open spec fn tk(c: Cx, k: ResidualKind) -> bool
             && (rsem(c, *arg1) is V && rsem(c, *arg2) is V ==> bin_types_ok(c, op, rsem(c, *arg1)->V_0, rsem(c, *arg2)->V_0)),
         ResidualKind::GetAttr { expr, .. } => types_ok(c, *expr),
         ResidualKind::HasAttr { expr, .. } => types_ok(c, *expr) && val_ok(rsem(c, *expr), |k: ValueKind| k is Record || is_uid_k(k)),
-        ResidualKind::ExtensionFunctionApp { .. } => true,
-        ResidualKind::Set(_) => true,
+        ResidualKind::ExtensionFunctionApp { args, .. } => forall|i: int| 0 <= i < args@.len() ==> types_ok(c, #[trigger] args@[i]),
+        ResidualKind::Set(es) => forall|i: int| 0 <= i < es@.len() ==> types_ok(c, #[trigger] es@[i]),
         ResidualKind::Record(_) => true,
     }
 }
@@ -175,3 +180,97 @@ pub open spec fn tk(c: Cx, k: ResidualKind) -> bool
 pub open spec fn sound(ev: &Evaluator<'_>, inp: Residual, out: Residual) -> bool {
     forall|c: Cx| #![trigger rsem(c, out)] #![trigger rsem(c, inp)] cons(ev, c) && types_ok(c, inp) ==> agree(rsem(c, out), rsem(c, inp)) && (rsem(c, inp) is E ==> can_err(out))
 }
+
+// ---- lists: set literals and extension-call arguments ----
+pub open spec fn list_any_err(c: Cx, rs: Seq<Residual>) -> bool { exists|i: int| 0 <= i < rs.len() && rsem(c, #[trigger] rs[i]) is E }
+pub open spec fn list_all_val(c: Cx, rs: Seq<Residual>) -> bool { forall|i: int| 0 <= i < rs.len() ==> rsem(c, #[trigger] rs[i]) is V }
+pub open spec fn list_vals(c: Cx, rs: Seq<Residual>) -> Seq<ValueKind> { Seq::new(rs.len(), |i: int| if 0 <= i < rs.len() { rsem(c, rs[i])->V_0 } else { arbitrary() }) }
+/// element-wise soundness of the simplified items gives, for every completion, what the three outcomes of the list arms need
+pub proof fn lemma_list_sound(ev: &Evaluator<'_>, ins: Seq<Residual>, outs: Seq<Residual>)
+    requires ins.len() == outs.len(), forall|i: int| 0 <= i < ins.len() ==> sound(ev, #[trigger] ins[i], outs[i])
+    ensures forall|c: Cx| #![trigger list_any_err(c, ins)] #![trigger list_all_val(c, ins)] cons(ev, c) && (forall|i: int| 0 <= i < ins.len() ==> types_ok(c, #[trigger] ins[i])) ==> {
+        // an error among the inputs is flagged in the corresponding output, and is an error or unspecified there
+        &&& (list_any_err(c, ins) ==> (exists|i: int| 0 <= i < outs.len() && can_err(#[trigger] outs[i])) && (list_any_err(c, outs) || !list_all_val(c, outs)))
+        // an error among the outputs: the inputs are an error or unspecified
+        &&& (list_any_err(c, outs) ==> list_any_err(c, ins) || !list_all_val(c, ins))
+        // all inputs values: the outputs are the same values, or unspecified
+        &&& (list_all_val(c, ins) && list_all_val(c, outs) ==> list_vals(c, outs) == list_vals(c, ins))
+        &&& (list_all_val(c, ins) ==> !list_any_err(c, outs))
+    }
+{
+    assert forall|c: Cx| #![trigger list_any_err(c, ins)] #![trigger list_all_val(c, ins)] cons(ev, c) && (forall|i: int| 0 <= i < ins.len() ==> types_ok(c, #[trigger] ins[i])) implies ({
+        &&& (list_any_err(c, ins) ==> (exists|i: int| 0 <= i < outs.len() && can_err(#[trigger] outs[i])) && (list_any_err(c, outs) || !list_all_val(c, outs)))
+        &&& (list_any_err(c, outs) ==> list_any_err(c, ins) || !list_all_val(c, ins))
+        &&& (list_all_val(c, ins) && list_all_val(c, outs) ==> list_vals(c, outs) == list_vals(c, ins))
+        &&& (list_all_val(c, ins) ==> !list_any_err(c, outs))
+    }) by {
+        assert forall|i: int| 0 <= i < ins.len() implies agree(rsem(c, #[trigger] outs[i]), rsem(c, ins[i])) && (rsem(c, ins[i]) is E ==> can_err(outs[i])) by {
+            assert(sound(ev, ins[i], outs[i])); assert(types_ok(c, ins[i]));
+        }
+        if list_any_err(c, ins) {
+            let i = choose|i: int| 0 <= i < ins.len() && rsem(c, #[trigger] ins[i]) is E;
+            assert(can_err(outs[i]));
+            assert(rsem(c, outs[i]) is E || rsem(c, outs[i]) is U);
+        }
+        if list_any_err(c, outs) {
+            let i = choose|i: int| 0 <= i < outs.len() && rsem(c, #[trigger] outs[i]) is E;
+            assert(agree(rsem(c, outs[i]), rsem(c, ins[i])));
+            assert(rsem(c, ins[i]) is E || rsem(c, ins[i]) is U);
+        }
+        if list_all_val(c, ins) && list_all_val(c, outs) {
+            assert forall|i: int| 0 <= i < ins.len() implies list_vals(c, outs)[i] == list_vals(c, ins)[i] by {
+                assert(agree(rsem(c, outs[i]), rsem(c, ins[i]))); assert(rsem(c, ins[i]) is V); assert(rsem(c, outs[i]) is V);
+            }
+            assert(list_vals(c, outs) =~= list_vals(c, ins));
+        }
+        if list_all_val(c, ins) && list_any_err(c, outs) {
+            let i = choose|i: int| 0 <= i < outs.len() && rsem(c, #[trigger] outs[i]) is E;
+            assert(agree(rsem(c, outs[i]), rsem(c, ins[i]))); assert(rsem(c, ins[i]) is V);
+        }
+    }
+}
+
+/// the vector predicates used by ksem are the list predicates of the vector's content
+pub proof fn lemma_v_list(es: Arc<Vec<Residual>>)
+    ensures forall|c: Cx| #![trigger v_any_err(c, es)] #![trigger v_all_val(c, es)] #![trigger v_vals(c, es)]
+        v_any_err(c, es) == list_any_err(c, es@) && v_all_val(c, es) == list_all_val(c, es@) && v_vals(c, es) == list_vals(c, es@)
+{
+    assert forall|c: Cx| #![trigger v_any_err(c, es)] #![trigger v_all_val(c, es)] #![trigger v_vals(c, es)]
+        v_any_err(c, es) == list_any_err(c, es@) && v_all_val(c, es) == list_all_val(c, es@) && v_vals(c, es) == list_vals(c, es@) by {
+        let rs = es@;
+        if list_any_err(c, rs) { let i = choose|i: int| 0 <= i < rs.len() && rsem(c, #[trigger] rs[i]) is E; assert(rsem(c, es@[i]) is E); }
+        if v_any_err(c, es) { let i = choose|i: int| 0 <= i < es@.len() && rsem(c, #[trigger] es@[i]) is E; assert(rsem(c, rs[i]) is E); }
+        if list_all_val(c, rs) { assert forall|i: int| 0 <= i < es@.len() implies rsem(c, #[trigger] es@[i]) is V by { assert(rsem(c, rs[i]) is V); } }
+        if v_all_val(c, es) { assert forall|i: int| 0 <= i < rs.len() implies rsem(c, #[trigger] rs[i]) is V by { assert(rsem(c, es@[i]) is V); } }
+        assert(v_vals(c, es) =~= list_vals(c, rs));
+    }
+}
+/// the meaning of a set literal / an extension call in terms of the list predicates
+pub proof fn lemma_ksem_set(es: Arc<Vec<Residual>>)
+    ensures forall|c: Cx| #[trigger] ksem(c, ResidualKind::Set(es)) == (if list_any_err(c, es@) { R::E } else if list_all_val(c, es@) { R::V(mk_set(list_vals(c, es@))) } else { R::U })
+{
+    lemma_v_list(es);
+    assert forall|c: Cx| #[trigger] ksem(c, ResidualKind::Set(es)) == (if list_any_err(c, es@) { R::E } else if list_all_val(c, es@) { R::V(mk_set(list_vals(c, es@))) } else { R::U }) by {
+        assert(ksem(c, ResidualKind::Set(es)) == (if v_any_err(c, es) { R::E } else if v_all_val(c, es) { R::V(mk_set(v_vals(c, es))) } else { R::U }));
+    }
+}
+pub proof fn lemma_ksem_ext(n: Name, args: Arc<Vec<Residual>>)
+    ensures forall|c: Cx| #[trigger] ksem(c, ResidualKind::ExtensionFunctionApp { fn_name: n, args }) == (if list_any_err(c, args@) { R::E } else { R::U })
+{
+    lemma_v_list(args);
+    assert forall|c: Cx| #[trigger] ksem(c, ResidualKind::ExtensionFunctionApp { fn_name: n, args }) == (if list_any_err(c, args@) { R::E } else { R::U }) by {
+        assert(ksem(c, ResidualKind::ExtensionFunctionApp { fn_name: n, args }) == (if v_any_err(c, args) { R::E } else { R::U }));
+    }
+}
+/// the same for the type condition
+pub proof fn lemma_tk_list(k: ResidualKind)
+    requires k is Set || k is ExtensionFunctionApp
+    ensures forall|c: Cx| #[trigger] tk(c, k) ==> (forall|i: int| 0 <= i < list_of(k).len() ==> types_ok(c, #[trigger] list_of(k)[i]))
+{
+    assert forall|c: Cx| #[trigger] tk(c, k) implies (forall|i: int| 0 <= i < list_of(k).len() ==> types_ok(c, #[trigger] list_of(k)[i])) by {
+        assert forall|i: int| 0 <= i < list_of(k).len() implies types_ok(c, #[trigger] list_of(k)[i]) by {
+            match k { ResidualKind::Set(es) => { assert(types_ok(c, es@[i])); }, ResidualKind::ExtensionFunctionApp { args, .. } => { assert(types_ok(c, args@[i])); }, _ => {} }
+        }
+    }
+}
+pub open spec fn list_of(k: ResidualKind) -> Seq<Residual> { match k { ResidualKind::Set(es) => es@, ResidualKind::ExtensionFunctionApp { args, .. } => args@, _ => Seq::empty() } }
